@@ -36,6 +36,7 @@ structure S where
   pollerHolds : Bool := false      -- the poller took the token (do) and is running callbacks
   staleHolds : Bool := false       -- a stale Release took the token
   bad : Bool := false              -- ghost: an event was dispatched to another owner's callbacks, or a stale call took the token of a later owner
+  fdOpen : Bool := false           -- the CURRENT owner's descriptor (operator.FD) is open; earlier owners' descriptors are other kernel objects
 deriving Repr, DecidableEq
 
 inductive Act where
@@ -53,11 +54,12 @@ inductive Act where
   | staleRelease (g : Nat) (guarded : Bool)  -- a connection of generation g, already closed, calls Release;
                                              -- `guarded` = the IsActive check of fix 1c26766 is present
   | staleDone
+  | closeFd (g : Nat)     -- the close finalizer of the owner of generation g reaches `netFD.Close()` (after `operator.Free()` returned)
 deriving Repr, DecidableEq
 
 def step (s : S) : Act → Option S
   | .alloc =>
-    if s.loc = .first then some { s with loc := .owned, gen := s.gen + 1, pc := .allocated, cbGen := some (s.gen + 1) } else none
+    if s.loc = .first then some { s with loc := .owned, gen := s.gen + 1, pc := .allocated, cbGen := some (s.gen + 1), fdOpen := true } else none
   | .register =>
     -- inuse(): CAS(0,1) (spins otherwise; state is 0 here)
     if s.loc = .owned ∧ s.pc = .allocated ∧ s.st = 0 then some { s with pc := .live, st := 1, registered := true } else none
@@ -98,6 +100,12 @@ def step (s : S) : Act → Option S
     else none
   | .staleDone =>
     if s.staleHolds then some { s with st := 1, staleHolds := false } else none
+  | .closeFd g =>
+    -- initFinalizer: `c.operator.Free(); c.netFD.Close()` – the descriptor number goes back to the kernel only after
+    -- `Free` (the barrier `unused()`, reset, freeable) has returned.  A finalizer of an earlier owner closes ITS descriptor.
+    if g = s.gen ∧ s.pc = .gone ∧ s.fdOpen then some { s with fdOpen := false }
+    else if g < s.gen then some s
+    else none
 
 def init : S := {}
 
